@@ -15,7 +15,7 @@ P4 output-path faults: WriteSolFile closes the file explicitly (close() throws),
 U1 unsupported constructs raise UnsupportedError unconditionally.
 """
 import re
-from ..cfg import expand_locals, norm_facts, xrender, Facts, kids, strip, walk, cv, render, call_args, call_object
+from ..cfg import reach_calls, expand_locals, norm_facts, xrender, Facts, kids, strip, walk, cv, render, call_args, call_object
 from ..cfg import short_loc as _short_loc
 from ..facts import export, export_many, AnalysisBroken
 
@@ -96,7 +96,7 @@ def run(rep, ctx):
     jobs = [dict(unit=MU, fn=[r"main", r"mp::RunBackendApp", r"mp::BackendApp::(Run|Init)"], repo=repo),
             dict(unit=BU, fn=[r"mp::BackendWithModelManager::(ReportError|HandleSolution)", r"mp::StdBackend::RunFromNLFile"], repo=repo),
             dict(unit=MM, fn=[r"mp::ModelManagerWithProblemBuilder::(ReadNLModel|ReadNLFile|HandleSolution|MakeProperSolutionHandler).*",
-                              r"mp::internal::SolverNLHandlerImpl::OnHeader", r"mp::SolutionWriterImpl::HandleSolution",
+                              r"mp::internal::SolverNLHandlerImpl::OnHeader", r"mp::SolutionWriterImpl::[A-Za-z]*Solution",
                               r"mp::SolutionAdapter::.*", r"mp::Error::Error", r"mp::WriteSolFile", r"mp::BasicExprVisitor::VisitUnsupported",
                               r"mp::BasicProblem::SuffixHandler::SetValue"],
                  repo=repo),
@@ -440,9 +440,12 @@ def run(rep, ctx):
     g1 = rep.rule("C09.G1", "FLOW", "the .sol dimensions are the NL problem's own counts", floor=4)
     hsw = one("mp::SolutionWriterImpl::HandleSolution")
     ad = [n for n in hsw.walk() if n["k"] == "VarDecl" and "SolutionAdapter" in (n.get("t") or "")]
-    if len(ad) != 1:
+    # the adapter's construction, in the handler or in a helper that builds it (arguments read in the handler's terms)
+    adc = [(c_, r_) for a_, c_, r_, o_ in reach_calls(F, hsw, lambda n: n["k"] in ("CXXConstructExpr", "CXXTemporaryObjectExpr") and
+                                                       (n.get("callee") or "").endswith("SolutionAdapter::SolutionAdapter") and len(kids(n)) >= 5, depth=1)]
+    if len(ad) != 1 or len(adc) != 1:
         raise AnalysisBroken("SolutionAdapter construction not found")
-    cargs = [render(a).replace(" ", "") for a in kids(strip(kids(ad[0])[0]))]
+    cargs = [render(adc[0][1](a)).replace(" ", "").replace("this->", "") for a in kids(adc[0][0])]
     g1.check(any("values?builder_.num_vars():0" in a for a in cargs), "primal-size", short_loc(ad[0].get("l")),
              "primal vector: builder_.num_vars() values or none", str(cargs))
     g1.check(any("dual_values?builder_.num_algebraic_cons():0" in a for a in cargs), "dual-size", short_loc(ad[0].get("l")),
